@@ -435,8 +435,10 @@ def gen_rules(r: random.Random, profile: str) -> Dict[str, Any]:
         if r.random() < 0.4:
             w.add_scripted("SH", 1, True)
         ns = r.randint(1, 3)
+        dense = r.random() < 0.04  # hundreds of clipped orders through one rule instance
         for i in range(ns):
-            w.add_session(r.randint(2, 10), True, r.random() < 0.8, max_normal=r.choice([2, 3, 6]), max_hft=2, rate=1.0)
+            w.add_session(r.randint(2, 10) if not dense else r.randint(60, 140), True, r.random() < 0.8,
+                          max_normal=r.choice([2, 3, 6]) if not dense else 6, max_hft=2, rate=1.0)
         si = r.randrange(ns)
         w.cfg["PL"] = {"class": "PriceLimitRule", "targetMarkets": targets, "triggerChangeRate": rate,
                        "enabled": r.random() < 0.9}
@@ -451,7 +453,7 @@ def gen_rules(r: random.Random, profile: str) -> Dict[str, Any]:
         for a in w.scripted:
             turns = []
             for _ in range(steps * (2 if a["hft"] else 1) + 2):
-                if r.random() < 0.25:
+                if r.random() < (0.25 if not dense else 0.02):
                     turns.append([])
                     continue
                 ops = []
@@ -707,8 +709,9 @@ def gen_scale(r: random.Random, profile: str = "scale") -> Dict[str, Any]:
 def gen_crowd(r: random.Random, profile: str = "crowd") -> Dict[str, Any]:
     """large populations (hundreds of mostly passive scripted agents) for the consultation rules."""
     w = World(r)
-    basic_markets(r, w, 1)
-    n = r.choice([129, 130, 200, 257, 400, 700])
+    many_markets = r.random() < 0.2
+    basic_markets(r, w, 1 if not many_markets else r.choice([17, 33, 70]))
+    n = r.choice([129, 130, 200, 257, 400, 700, 1100]) if not many_markets else r.choice([3, 10, 129])
     w.add_scripted("SA", n, False)
     nh = r.choice([0, 0, 2, 40, 150])
     if nh:
@@ -719,3 +722,94 @@ def gen_crowd(r: random.Random, profile: str = "crowd") -> Dict[str, Any]:
     p_empty = r.choice([0.9, 0.98, 0.995, 1.0])
     fill_scripts(r, w, p_empty=p_empty, p_cancel=0.1, p_market=0.05, p_ttl=0.3, max_ops=2, hft_mult=2)
     return w.scenario()
+
+
+# ---------------------------------------------------------------------- long clocks: stretched scenarios
+def stretch(scn: Dict[str, Any], r: random.Random) -> Dict[str, Any]:
+    """multiplies the clock of a scenario by k (sessions, trigger times, probe time lists, halting lengths)
+    and spreads the scripted turns out with empty turns: the same activity over hundreds of steps, so that
+    times beyond 100, 256 and several storage/generation chunks are reached cheaply."""
+    k = r.choice([8, 15, 25, 40])
+    cfg = scn["config"]
+    sessions = cfg["simulation"]["sessions"]
+    old_starts, new_starts = [], []
+    a = b = 0
+    align = r.choice([None, None, 50, 100, 128, 256])
+    for s in sessions:
+        old_starts.append(a)
+        new_starts.append(b)
+        a += s["iterationSteps"]
+        n = s["iterationSteps"] * k + r.randrange(0, k)
+        if align:
+            # session boundaries on round numbers (multiples of 50/100/128/256), as in the shipped samples
+            end = ((b + n + align - 1) // align) * align
+            n = max(1, end - b)
+        s["iterationSteps"] = n
+        b += n
+    total_old, total_new = a, b
+
+    def map_time(t):
+        # session boundaries map to session boundaries exactly
+        if t == total_old:
+            return total_new
+        if t == total_old - 1:
+            return total_new - 1
+        for i in range(len(sessions)):
+            if t == old_starts[i]:
+                return new_starts[i]
+            if i > 0 and t == old_starts[i] - 1:
+                return new_starts[i] - 1
+        # keep the session a time falls into; scale the offset inside it
+        for i in range(len(sessions) - 1, -1, -1):
+            if t >= old_starts[i]:
+                off = (t - old_starts[i]) * k + r.randrange(0, k)
+                return new_starts[i] + off
+        return t * k
+
+    for name, v in cfg.items():
+        if not isinstance(v, dict):
+            continue
+        if isinstance(v.get("triggerTime"), int):
+            v["triggerTime"] = v["triggerTime"] * k + r.randrange(0, k)
+        if isinstance(v.get("haltingTimeLength"), int) and r.random() < 0.6:
+            v["haltingTimeLength"] = v["haltingTimeLength"] * r.choice([1, k // 2, k])
+        if isinstance(v.get("shockTimeLength"), int) and r.random() < 0.3:
+            v["shockTimeLength"] = v["shockTimeLength"] + r.choice([0, 1, 100])
+        for key in ("timeWindowSize", "orderTimeLength"):
+            if key in v and r.random() < 0.5:
+                kk = min(k, 16)
+                if isinstance(v[key], int):
+                    v[key] = v[key] * r.choice([1, kk])
+                elif isinstance(v[key], list) and len(v[key]) == 2:
+                    v[key] = [v[key][0] * kk, v[key][1] * kk]
+    for name, spec in (scn.get("probes") or {}).items():
+        for h in spec.get("hooks", []):
+            if h.get("times") is not None:
+                h["times"] = [map_time(t) for t in h["times"]]
+    for name, turns in (scn.get("scripts") or {}).items():
+        new = []
+        for t in turns:
+            for op in t:
+                if isinstance(op.get("ttl"), int) and r.random() < 0.4:
+                    op["ttl"] = op["ttl"] * r.choice([k, 2 * k, 5 * k])
+            new.append(t)
+            for _ in range(k - 1):
+                new.append([])
+        # shift the phase so that activity is not always on multiples of k
+        scn["scripts"][name] = [[] for _ in range(r.randrange(0, k))] + new
+    scn["knobs"] = {"storage_chunk": None, "generation_chunk": None}
+    scn["stretched_by"] = k
+    return scn
+
+
+def gen_long(r: random.Random, profile: str) -> Dict[str, Any]:
+    base, _, sub = profile.partition(":")
+    if base == "world":
+        scn = gen_world(r, sub)
+    elif base == "rules":
+        scn = gen_rules(r, sub)
+    elif base == "agents":
+        scn = gen_agents(r, "agents")
+    else:
+        raise ValueError(profile)
+    return stretch(scn, r)
